@@ -1,7 +1,7 @@
 (* C11 part B - case types and boolean checks used by the generated correspondence files
    (coq/Cases/C11/best_*.v).  Definitions only. *)
 From Coq Require Import List ZArith Bool Arith Floats.
-From SV Require Import Common.Corr C11.BestFirst C11.BestGrid C11.BestGridF C11.BestSpec.
+From SV Require Import Common.Corr C11.BestFirst C11.BestGrid C11.BestGridF C11.BestSpec C11.BestHyps.
 Import ListNotations.
 Open Scope Z_scope.
 
@@ -76,4 +76,16 @@ Definition grcase_spec_ok (c : grcase * obs cell float) : bool :=
   | GrCase g s t d h b cm w mi =>
       result_check cell_eqb zr_add (grid_nbrs (1, 0) zr_of_Z zr_mul_sqrt2 g (dirs_of d) b cm)
         (fun y x => f_close (zr_to_f x) y) zr_zero s (cell_eqb t) (snd c)
+  end.
+
+(* the boolean hypotheses of the optimality theorems (BestHyps.v) agree with the harness's own notion of
+   "non-negative weights / consistent heuristic" on this input: (case, harness verdict) *)
+Definition gcase_hyp_ok (c : gcase * bool) : bool :=
+  match fst c with
+  | GCase false adj _ _ _ _ _ _ => Bool.eqb (nonneg_adj adj) (snd c)
+  | GCase true adj _ gs ht w _ _ => Bool.eqb (nonneg_adj adj && consistent_adj adj gs ht && (w =? 1)) (snd c)
+  end.
+Definition grcase_hyp_ok (c : grcase * bool) : bool :=
+  match fst c with
+  | GrCase g s t d h b cm w mi => Bool.eqb (costs_ge1 cm && heur_ok d (resolve_h d h) && (w =? 1)) (snd c)
   end.
